@@ -41,7 +41,7 @@ func init() {
 		Findings: map[string]func(v *mon.Violation) bool{},
 		Floors: func(tier string, cover map[string]int64, evals int64) []string {
 			var out []string
-			for _, k := range []string{"op:Generify+Simplify", "op:GenAlter+Alter", "op:alt.Alter", "op:Dup", "op:Decompose", "op:Node.Dup", "op:writers", "op:gen.Parser-vs-Generify", "op:gen.ParseReader-refill-boundary", "alias:pointer-walk", "alias:mutate-copy", "alias:mutate-original", "kind:time", "kind:big", "enumerated-trees"} {
+			for _, k := range []string{"op:Generify+Simplify", "op:GenAlter+Alter", "op:alt.Alter", "op:typed-containers", "op:Dup", "op:Decompose", "op:Node.Dup", "op:writers", "op:gen.Parser-vs-Generify", "op:gen.ParseReader-refill-boundary", "alias:pointer-walk", "alias:mutate-copy", "alias:mutate-original", "kind:time", "kind:big", "enumerated-trees"} {
 				if cover[k] == 0 {
 					out = append(out, "coverage class never reached: "+k)
 				}
@@ -401,6 +401,7 @@ func (ck *checker) tree(v any, enum bool) {
 			c.Violation("alt.GenAlter+Alter", "value-changed", kindClass(s0, got), cs, clip(s0), clip(got))
 		}
 	}
+	ck.typedRoutes(v, s0, cs)
 	// alt.Alter on simple data (in place, exempt from alias checks): the value is kept, also when the data
 	// holds the narrower Go number types Alter exists to widen
 	c.Cover("op:alt.Alter")
@@ -421,6 +422,151 @@ func (ck *checker) tree(v any, enum bool) {
 			c.Violation("alt.Alter(narrow numbers)", "value-changed", kindClass(s0, got), cs, clip(s0), clip(got))
 		}
 	}
+}
+
+// typedRoutes: the same conversions on the data held in typed Go containers ([]map[string]any, [][]any,
+// []int64, []string, map[string]map[string]any, ...), the way Go programs commonly hold JSON-like data. The
+// converters reach those through reflection; the value must come out the same as for the untyped twin.
+func (ck *checker) typedRoutes(v any, s0 string, cs map[string]any) {
+	c := ck.c
+	changed := false
+	tv := typed(dupAny(v), &changed)
+	if !changed {
+		return
+	}
+	c.Cover("op:typed-containers")
+	for _, op := range []struct {
+		name string
+		f    func(in any) any
+	}{
+		{"Generify(typed containers)", func(in any) any {
+			if g := alt.Generify(in, keep); g != nil {
+				return g
+			}
+			return nil
+		}},
+		{"GenAlter+Alter(typed containers)", func(in any) any {
+			if g := alt.GenAlter(in, keep); g != nil {
+				return g.Alter()
+			}
+			return nil
+		}},
+		{"Decompose(typed containers)", func(in any) any { return alt.Decompose(in, keep) }},
+		{"Alter(typed containers)", func(in any) any { return alt.Alter(in, keep) }},
+	} {
+		var out any
+		in := tv
+		if op.name != "Decompose(typed containers)" && op.name != "Generify(typed containers)" {
+			in = typed(dupAny(v), &changed)
+		}
+		if pn := mon.Guard(func() { out = op.f(in) }); pn != nil {
+			c.Violation("alt."+op.name, "panic", mon.FaultClass(pn.Msg), cs, "value", pn.String())
+			continue
+		}
+		c.Eval(1)
+		if got := show(out); got != s0 && (strings.HasPrefix(op.name, "Generify") || loose(got) != loose(s0)) {
+			c.Violation("alt."+op.name, "value-changed", kindClass(s0, got), cs, clip(s0), clip(got))
+		}
+	}
+}
+
+// typed rebuilds v with homogeneous containers replaced by typed Go containers; *changed reports whether
+// any was.
+func typed(v any, changed *bool) any {
+	switch t := v.(type) {
+	case []any:
+		for i := range t {
+			t[i] = typed(t[i], changed)
+		}
+		if len(t) == 0 {
+			return t
+		}
+		switch t[0].(type) {
+		case map[string]any:
+			if out, ok := sliceOf[map[string]any](t); ok {
+				*changed = true
+				return out
+			}
+		case []any:
+			if out, ok := sliceOf[[]any](t); ok {
+				*changed = true
+				return out
+			}
+		case int64:
+			if out, ok := sliceOf[int64](t); ok {
+				*changed = true
+				return out
+			}
+		case string:
+			if out, ok := sliceOf[string](t); ok {
+				*changed = true
+				return out
+			}
+		case float64:
+			if out, ok := sliceOf[float64](t); ok {
+				*changed = true
+				return out
+			}
+		case bool:
+			if out, ok := sliceOf[bool](t); ok {
+				*changed = true
+				return out
+			}
+		}
+	case map[string]any:
+		var first any
+		for k := range t {
+			t[k] = typed(t[k], changed)
+			first = t[k]
+		}
+		switch first.(type) {
+		case map[string]any:
+			if out, ok := mapOf[map[string]any](t); ok {
+				*changed = true
+				return out
+			}
+		case []any:
+			if out, ok := mapOf[[]any](t); ok {
+				*changed = true
+				return out
+			}
+		case int64:
+			if out, ok := mapOf[int64](t); ok {
+				*changed = true
+				return out
+			}
+		case string:
+			if out, ok := mapOf[string](t); ok {
+				*changed = true
+				return out
+			}
+		}
+	}
+	return v
+}
+
+func sliceOf[T any](a []any) ([]T, bool) {
+	out := make([]T, len(a))
+	for i, e := range a {
+		x, ok := e.(T)
+		if !ok {
+			return nil, false
+		}
+		out[i] = x
+	}
+	return out, true
+}
+
+func mapOf[T any](m map[string]any) (map[string]T, bool) {
+	out := make(map[string]T, len(m))
+	for k, e := range m {
+		x, ok := e.(T)
+		if !ok {
+			return nil, false
+		}
+		out[k] = x
+	}
+	return out, true
 }
 
 // narrow replaces small int64 leaves by int / int32 / uint8 and floats that fit by float32 (values that are
